@@ -4,8 +4,8 @@ from .. import sweep, tlc
 LEVEL = "model_checking"
 MANIFEST = dict(
     category="model_checking",
-    text="Loop.tla models the agent-environment protocol (choose action, env step, store, learn, advance/reset, return) with a nondeterministic environment; TLC checks StoredFaithful / FirstOfEpisodeFromReset / CondFaithful on all behaviours within the bound and refutes the stale-observation, done-flag, misaligned-batch and shared-reward-list deviations. Every training routine is then run on a scripted environment whose observations are identifiers, with recording buffers / rollout wrappers and policy probes; LoopTrace.tla validates every event of every run clause by clause with the same clause operators (StoreObs/Act/Reward/Next/Term, CondFaithful, ExploredActionPassed, ChosenActionPassed); the rows actually handed to the on-policy learners (interposed update functions of A2C / PPO / REINFORCE / actor-critic: LearnRowObs/Act/Reward/Next/Term judge every row of the prepared batch against the environment log, whatever its layout) and Dyna-Q's whole experience record at every model update (RecordNotProduced / RecordCount / RecordReward / RecordMissing).",
-    note="runs of ~15-30 environment steps per scenario (3 quick / 5 thorough scenarios per routine: one-step episodes, truncation vs termination, boundary at warm-up, wrap-around capacity, start>0, episode limits); trusted: scripted environment, recording wrappers, tag decoding, TLC",
+    text="Loop.tla models the agent-environment protocol (choose action, env step, store, learn, advance/reset, return) with a nondeterministic environment; TLC checks StoredFaithful / FirstOfEpisodeFromReset / CondFaithful on all behaviours within the bound and refutes the stale-observation, done-flag, both-flags-kept-as-not-terminated, misaligned-batch and shared-reward-list deviations (the environment's step kinds are continue / terminated / truncated / both flags at once). Every training routine is then run on a scripted environment whose observations are identifiers, with recording buffers / rollout wrappers and policy probes; LoopTrace.tla validates every event of every run clause by clause with the same clause operators (StoreObs/Act/Reward/Next/Term, CondFaithful, ExploredActionPassed, ChosenActionPassed); the rows actually handed to the on-policy learners (interposed update functions of A2C / PPO / REINFORCE / actor-critic: LearnRowObs/Act/Reward/Next/Term judge every row of the prepared batch against the environment log, whatever its layout) and Dyna-Q's whole experience record at every model update (RecordNotProduced / RecordCount / RecordReward / RecordMissing).",
+    note="runs of ~15-30 environment steps per scenario (3 quick / 5 thorough scenarios per routine: one-step episodes, truncation vs termination vs both flags on one step, boundary at warm-up, wrap-around capacity, start>0, episode limits); trusted: scripted environment, recording wrappers, tag decoding, TLC",
     technique="TLA+ design model checked with TLC + trace validation of recorded executions of every train_* routine",
 )
 
@@ -19,6 +19,10 @@ def run(rep):
     sweep.binding_canary(traces, "obs", "add", "StoreObs")
     sweep.binding_canary(traces, "lrows.act", "learn_rows", "LearnRowAct")
     sweep.binding_canary(traces, "rec.rs", "experience", "RecordNotProduced")
+    # step kinds are complete: every routine met steps that return terminated AND truncated at once, and keeping such a
+    # step as "not terminated" is rejected
+    rep.extra["steps_with_both_flags"] = sweep.both_flag_coverage(traces)
+    sweep.binding_canary(traces, "term_of_both", "add", "StoreTerm")
     adds = sum(1 for t in traces for e in t["events"] if e["ev"] == "add")
     pol = sum(1 for t in traces for e in t["events"] if e["ev"] == "policy")
     rep.evaluations = adds + pol
